@@ -6,6 +6,8 @@ import JSight.CheckerLit
 import JSight.BridgeCK
 import JSight.BridgeCK2Types
 import JSight.BridgeCK2
+import JSight.BridgeCK3Fuel
+import JSight.BridgeCK3False
 /-!
 # C04 — Check accepts a schema only if its own EXAMPLE obeys its rules
 
@@ -340,7 +342,10 @@ open BridgeCK in
 /-- what remains to be proved — exactly what `vh bridge-models` (component `C`) samples: the agreement on every tree
 that `Compile.compileNode` BUILDS (root and every named type the compiled tree of some node table), whenever neither
 side runs out of fuel. PROVED for the class of `C04_models_agree` (which is stated on trees, compiled or not); open for
-nodes with an EXAMPLE and a types list, or-shortcuts and type aliases (the reference-following loops). -/
+nodes with an EXAMPLE and a types list, or-shortcuts and type aliases (the reference-following loops).
+Third part: as stated (over every node TABLE, loader-produced or not) it is FALSE — `C04_models_agree_compiled_full_false`;
+on the decidable class `xr` (EXAMPLE + types list, aliases, or-shortcuts) it is proved: `C04_models_agree_compiled`,
+`C04_models_agree_compiled_partial`. -/
 def C04_models_agree_compiled_full : Prop :=
   ∀ (root : Option Compile.CN) (ts : Compile.Types),
     (∀ r, root = some r → ∃ tbl opt fuel i p o, Compile.compileNode tbl opt fuel i p = .ok (r, o)) →
@@ -468,5 +473,236 @@ example : nr (refsArr "@a") = true ∧ checkC (some (refsArr "@a")) [("@a", litS
 /-- non-vacuity of `C04_models_agree_plain`: `[1, "a"]` -/
 example : E2E.guessable (.arr [.lit (sb "1"), .lit (sb "\"a\"")]) = true := by decide +kernel
 end BridgeEx2
+
+/-! ### Bridge (A)∩(C), third part: nodes that carry an EXAMPLE together with a types list
+
+`BridgeCK3Lit.lean` (a token against the validator of ANOTHER node), `BridgeCK3Loops.lean` (the reference-following
+loops `collectAllowedJsonTypes` / `buildList` of the two models, related for any amounts of fuel), `BridgeCK3Node.lean`
+(the node), `BridgeCK3Tree.lean` (tree and type table on the class `xr`), `BridgeCK3Fuel.lean` ((A) never runs out of
+`Compile.checkFuel` — after its repair, see there). -/
+
+open BridgeCK in
+/-- **C04_text_checker_never_out_of_fuel**: the checker of the text-level pipeline never answers "out of fuel" — on
+every compiled tree and every type table (cyclic ones included) `Compile.checkFuel` units are enough for the
+reference-following loops `allowed` (collectAllowedJsonTypes) and `exampleAlts` (buildList): the counterpart of
+`C04_checker_no_crash` for model (A). (The proof attempt exposed that the previous amount `|types| + 2 + names` was NOT
+enough — `@T = 1 // {or: ["@x" × 7, "@a"]}`, `@a = 2 // {type: "@T"}`: the library answers 1303, (A) answered
+`unsupported "fuel"`; `checkFuel` now counts the names twice.) -/
+theorem C04_text_checker_never_out_of_fuel :
+    (∀ (root : Option Compile.CN) (ts : Compile.Types) (w : String), checkA root ts ≠ .error (.unsupported w)) ∧
+    (∀ (root : Compile.CN) (ts : Compile.Types) (w : String), Compile.check root ts ≠ .error (.unsupported w)) :=
+  ⟨checkA_no_fuel, check_no_fuel⟩
+
+open BridgeCK in
+/-- **C04_allowed_json_types_agree** (`collectAllowedJsonTypes`): for ANY amounts of fuel on the two sides, any path set
+and any list of names, (A)'s `Compile.allowed` and (C)'s `CK.collectNames ∘ CK.collect` either stop with the same error
+code (1302 undefined, 1303 recursion) or return the same set of allowed JSON types ((A): the list, `none` = every type;
+(C): appended to its accumulator) — unless one of them ran out of fuel (`RelE.fuelA` / `fuelC`). Chains of references of
+any length, type shortcuts and cycles included; the table: any types whose roots are literals without `email`, `any`
+nodes, arrays, objects or nodes with a types list of type names (`headOK`; `nameOK`: single-byte characters, not a `#…` name; (C)'s table the
+dump of (A)'s on such names: `EnvRelN`). -/
+theorem C04_allowed_json_types_agree (ts : Compile.Types) (env : CK.Env) (hE : EnvRelN ts env)
+    (hT : ∀ n cn, Compile.lookupT ts n = some cn → headOK cn = true)
+    (fA fC : Nat) (found names : List String) (acc : List CK.JT) (hn : ∀ n ∈ names, nameOK n)
+    (hf : ∀ n ∈ found, nameOK n) :
+    RelE (RAllowed acc) (Compile.allowed ts fA found names)
+      (CK.collectNames (CK.collect env fC) env (found.map name) (names.map name) acc) :=
+  collect_rel ts env hE hT fA fC found names acc hn hf
+
+open BridgeCK in
+/-- **C04_example_alternatives_agree** (`buildList`): for ANY amounts of fuel, (A)'s `Compile.exampleAlts` and (C)'s
+`CK.buildNames ∘ CK.build` either stop with the same error code or expand the same names in the same order and produce
+one alternative per type root reached, each with the same verdict on the EXAMPLE token (`RAlts`: (C)'s checker applied
+to the token's lexeme = (A)'s `litErr` / 1201) — unless one of them ran out of fuel. -/
+theorem C04_example_alternatives_agree (ts : Compile.Types) (env : CK.Env) (hE : EnvRelN ts env)
+    (hT : ∀ n cn, Compile.lookupT ts n = some cn → headOK cn = true) (tok : List UInt8) (d : Rules.Kind)
+    (hd : RulesF.kindOfTok tok = some d) (hen : (RulesF.enumItem tok).isSome = true)
+    (fA fC : Nat) (added names : List String) (l : List CK.Chk) (hn : ∀ n ∈ names, nameOK n)
+    (ha : ∀ n ∈ added, nameOK n) :
+    RelE (RAlts tok l) (Compile.exampleAlts ts tok fA added names)
+      (CK.buildNames (CK.build env fC) env (names.map name) (added.map name, l)) :=
+  build_rel ts env hE hT tok d hd hen fA fC added names l hn ha
+
+open BridgeCK in
+/-- **C04_models_agree_or_list** — step (2), which contains step (1): a literal node with an EXAMPLE `tok` and a types
+list `names` (`{type: "@t"}`: one name; `{or: ["@a", "@b", …]}`: several, repetitions allowed), against ANY type table whose
+roots the loops can read (`headOK`; (C)'s table the dump of (A)'s: `EnvRelN`), with any fuel that covers the list in hand
+and the root lists of the table (`budget`; `Compile.checkFuel` does): (C)'s `checkNode` on the dump of the node is (A)'s
+`checkNode` — `checkLinksOfNode` (1302 / 1303 / 1301: the same set of allowed JSON types) and `checkLiteralNode` (one
+alternative: its first failing validator's code, 210 for a wrong kind; several alternatives all failing: 204; an
+undefined name met by `buildList`: 1302), through chains of references of any length. (A)'s error carries position 0
+(`Pos`). -/
+theorem C04_models_agree_or_list (ts : Compile.Types) (env : CK.Env) (fuel : Nat) (hE : EnvRelN ts env)
+    (hT : ∀ n cn, Compile.lookupT ts n = some cn → headOK cn = true)
+    (names : List String) (nul : Bool) (jt : Compile.JT) (tok : List UInt8) (os : Bool)
+    (hj : (jt == Compile.JT.mixed) = false) (htok : tokOK jt tok = true) (hb : ∀ n ∈ names, nameOK n)
+    (hfuel : names.length + 1 + budget [] ts ≤ fuel) :
+    CK.checkNode Compile.noOracles env (dumpNode (.ref names nul jt (some tok) os)) =
+        panicOf (Compile.checkNode ts fuel (.ref names nul jt (some tok) os)) ∧
+      Pos (Compile.checkNode ts fuel (.ref names nul jt (some tok) os)) :=
+  refex_agree ts env fuel hE hT ⟨fuel - 1, by omega⟩ names nul jt tok os hj htok hb
+    (node_fuel ts fuel _ (by simp only [Compile.namesCount]; omega))
+
+open BridgeCK in
+/-- **C04_models_agree_typed_literal** — step (1): `tok // {type: "@t"}`, where `@t` resolves through a chain of
+`{type}` references of any length (or does not: 1302, 1303) -/
+theorem C04_models_agree_typed_literal (ts : Compile.Types) (env : CK.Env) (fuel : Nat) (hE : EnvRelN ts env)
+    (hT : ∀ n cn, Compile.lookupT ts n = some cn → headOK cn = true)
+    (t : String) (nul : Bool) (jt : Compile.JT) (tok : List UInt8)
+    (hj : (jt == Compile.JT.mixed) = false) (htok : tokOK jt tok = true) (hb : nameOK t)
+    (hfuel : 2 + budget [] ts ≤ fuel) :
+    CK.checkNode Compile.noOracles env (dumpNode (.ref [t] nul jt (some tok) false)) =
+        panicOf (Compile.checkNode ts fuel (.ref [t] nul jt (some tok) false)) ∧
+      Pos (Compile.checkNode ts fuel (.ref [t] nul jt (some tok) false)) :=
+  C04_models_agree_or_list ts env fuel hE hT [t] nul jt tok false hj htok
+    (fun n hn => by simp only [List.mem_singleton] at hn; exact hn ▸ hb) (by simpa using hfuel)
+
+open BridgeCK in
+/-- **C04_models_agree_compiled** — the largest class reached (`xr`): everything of `C04_models_agree` (literal nodes
+with validators, `any` nodes, type shortcuts, arrays, objects with key shortcuts and every additionalProperties mode)
+PLUS (1, 2) nodes that carry an EXAMPLE together with a types list (`type`, `or`; the token guessable and an enum item),
+PLUS named types whose root is such a node or a type shortcut (aliases: chains and cycles of any length) — the hypothesis
+`notRef` of `C04_models_agree` is gone; only the type a KEY shortcut names must not be a type shortcut / or-shortcut
+(`keyDirect`: a literal, also a typed one `"ab" // {type: "@s"}`, an object, an array) —, PLUS (3) OR-SHORTCUTS
+`@a | @b` anywhere, with the unnamed types `#…` they own inside named types: (C) visits them before every named type
+(`typeGoesFirst`: `#` < `@`), each fails with 1302 or not at all, which is (A)'s `orShortsOK` stage. Type names start with
+`@`, single-byte, pairwise different. On this class `checkA root ts` = `CK.checkSchema noOracles (dumpOf root ts)` read
+back: the same verdict, the same first error code; the equation excludes "out of fuel" on both sides. Outside: key
+shortcuts whose type is an alias `@k = @s` / `@k = @a | @b` (`actualRootType` through references), the `email` validator,
+`any` on a type shortcut. -/
+theorem C04_models_agree_compiled (root : Option Compile.CN) (ts : Compile.Types)
+    (hroot : ∀ r, root = some r → xr ts r = true)
+    (hts : ∀ t ∈ ts, xr ts t.2 = true ∧ byteChars t.1 ∧ (name t.1).head? = some 64)
+    (hnd : (ts.map (·.1)).Nodup) :
+    resOf (checkC root ts) = some (checkA root ts) :=
+  agree_typed root ts hroot hts hnd
+
+open BridgeCK in
+/-- the statement `C04_models_agree_compiled_full` restricted to the decidable class `xr` -/
+theorem C04_models_agree_compiled_partial (root : Option Compile.CN) (ts : Compile.Types)
+    (hroot : ∀ r, root = some r → xr ts r = true)
+    (hts : ∀ t ∈ ts, xr ts t.2 = true ∧ byteChars t.1 ∧ (name t.1).head? = some 64)
+    (hnd : (ts.map (·.1)).Nodup) :
+    match resOf (checkC root ts) with
+    | none => True
+    | some c => isUnsupported (checkA root ts) = false → codeOfA (checkA root ts) = codeOfA c := by
+  rw [agree_typed root ts hroot hts hnd]
+  exact fun _ => rfl
+
+open BridgeCK in
+/-- **the statement over ALL trees `compileNode` builds is false too** — `Compile.compileNode` accepts node tables no
+loader produces: a type-shortcut node carrying nothing but a hand-written `type: "any"` compiles to `.any .mixed none`
+(`wAny_type_compiled`), `1 // {type: "@t"}` to `wAnyRoot` (`wAny_root_compiled`), and on that pair the models disagree
+(`C04_models_agree_full_false_any`: 1301 in (A), code 1 in (C)). The real library cannot reach it: `@x // {type: "any"}`
+is refused with 501 (duplicate "type" rule) while the text is loaded — a shortcut always carries its synthesised rule.
+The statement has to be about a decidable CLASS of trees: `C04_models_agree_compiled` (`xr`, which excludes `any` on a
+type shortcut). -/
+theorem C04_models_agree_compiled_full_false : ¬ C04_models_agree_compiled_full := by
+  intro hfull
+  have h := hfull (some wAnyRoot) wAnyTs
+    (fun r hr => by
+      cases hr
+      obtain ⟨o, ho⟩ := wAny_root_compiled
+      exact ⟨_, _, _, _, _, o, ho⟩)
+    (fun t ht => by
+      simp only [wAnyTs, List.mem_singleton] at ht
+      subst ht
+      obtain ⟨o, ho⟩ := wAny_type_compiled
+      exact ⟨_, _, _, _, _, o, ho⟩)
+  rw [wAny_facts.1] at h
+  have h2 := h wAny_facts.2.2
+  rw [wAny_facts.2.1] at h2
+  exact absurd h2 (by decide)
+
+open BridgeCK in
+/-- **C04_pipeline_with_checker_model_compiled** (`C04_pipeline_with_checker_model` / `C01_text_level_with_checker_model`
+instantiated for the class): for schema and type TEXTS whose loaded form lies in `xr`, the text-level pipeline with the
+checker MODEL of C04 inside (`E2E.validateTextCK`) gives the outcome of `E2E.validateText` on every document text — every
+text-level theorem about `validateText` speaks about the pipeline whose checker stage `C04_checker_sound / _complete`
+describe. -/
+theorem C04_pipeline_with_checker_model_compiled (root : List UInt8) (types : List (String × List UInt8))
+    (doc : List UInt8) (opt : Bool)
+    (hcls : ∀ r ts, E2E.loadSchema root opt = .ok r → E2E.loadTypes types = .ok ts →
+      (∀ x, r = some x → xr ts x = true) ∧
+      (∀ t ∈ ts, xr ts t.2 = true ∧ byteChars t.1 ∧ (name t.1).head? = some 64) ∧ (ts.map (·.1)).Nodup) :
+    E2E.validateTextCK root types doc opt = E2E.validateText root types doc opt :=
+  C04_pipeline_with_checker_model root types doc opt fun r ts h1 h2 =>
+    agree_typed r ts (hcls r ts h1 h2).1 (hcls r ts h1 h2).2.1 (hcls r ts h1 h2).2.2
+
+namespace BridgeEx3
+open BridgeCK Compile
+def litI (tok : String) (rules : List RulesF.Rule) : CN := .lit { kind := .i, ex := sb tok, nul := false, rules := rules } false
+def litS (tok : String) : CN := .lit { kind := .s, ex := sb tok, nul := false, rules := [] } false
+def refI (names : List String) (tok : String) : CN := .ref names false .int (some (sb tok)) false
+/-- `1 // {type: "@a"}`, `@a = 2 // {type: "@b"}`, `@b = 4 // {min: 3}`: the EXAMPLE 1 fails the rule two references
+away (602 on both sides), and so does the EXAMPLE 2 of `@a` -/
+def chainTs : Types := [("@a", refI ["@b"] "2"), ("@b", litI "4" [.min (sb "3") false])]
+example : xr chainTs (refI ["@a"] "1") = true ∧
+    (∀ t ∈ chainTs, xr chainTs t.2 = true ∧ byteChars t.1 ∧ (name t.1).head? = some 64) ∧
+    (chainTs.map (·.1)).Nodup := by decide +kernel
+example : checkC (some (refI ["@a"] "1")) chainTs = .err 602 0 0 none ∧
+    codeOfA (checkA (some (refI ["@a"] "1")) chainTs) = some 602 := by decide +kernel
+example : resOf (checkC (some (refI ["@a"] "1")) chainTs) = some (checkA (some (refI ["@a"] "1")) chainTs) :=
+  C04_models_agree_compiled _ _ (fun r h => by cases h; decide +kernel) (by decide +kernel) (by decide +kernel)
+/-- `5 // {type: "@a"}` passes the chain (accepted); `"x" // {type: "@a"}` has the wrong JSON type (1301) -/
+example : checkC (some (refI ["@a"] "5")) [("@a", refI ["@b"] "4"), ("@b", litI "4" [.min (sb "3") false])] = .ok ∧
+    (codeOfA (checkA (some (refI ["@a"] "5")) [("@a", refI ["@b"] "4"), ("@b", litI "4" [.min (sb "3") false])]) = none ∧ isUnsupported (checkA (some (refI ["@a"] "5")) [("@a", refI ["@b"] "4"), ("@b", litI "4" [.min (sb "3") false])]) = false) := by
+  decide +kernel
+example : checkC (some (.ref ["@a"] false .str (some (sb "\"x\"")) false)) chainTs = .err 1301 0 0 none ∧
+    codeOfA (checkA (some (.ref ["@a"] false .str (some (sb "\"x\"")) false)) chainTs) = some 1301 := by decide +kernel
+/-- `1 // {or: ["@s", "@b"]}` with `@s = "x"`, `@b = 4 // {min: 3}`: both alternatives fail — 204; with `@b` alone: 602;
+with an undefined name: 1302 -/
+def orTs : Types := [("@s", litS "\"x\""), ("@b", litI "4" [.min (sb "3") false])]
+example : xr orTs (refI ["@s", "@b"] "1") = true := by decide +kernel
+example : checkC (some (refI ["@s", "@b"] "1")) orTs = .err 204 0 0 none ∧
+    codeOfA (checkA (some (refI ["@s", "@b"] "1")) orTs) = some 204 ∧
+    checkC (some (refI ["@s", "@nope"] "1")) orTs = .err 1302 0 0 none ∧
+    codeOfA (checkA (some (refI ["@s", "@nope"] "1")) orTs) = some 1302 ∧
+    checkC (some (refI ["@s", "@b"] "7")) orTs = .ok ∧ (codeOfA (checkA (some (refI ["@s", "@b"] "7")) orTs) = none ∧ isUnsupported (checkA (some (refI ["@s", "@b"] "7")) orTs) = false) := by
+  decide +kernel
+/-- the witness that exposed the fuel slip: `@T = 1 // {or: ["@x" × 9, "@a"]}`, `@a = 2 // {type: "@T"}`, `@x = 3`: the
+chain comes back to `@a` — 1303 on both sides (before the repair of `checkFuel`: `unsupported "fuel"` in (A)) -/
+def cycTs : Types := [("@T", refI (List.replicate 9 "@x" ++ ["@a"]) "1"), ("@a", refI ["@T"] "2"), ("@x", litI "3" [])]
+example : (∀ t ∈ cycTs, xr cycTs t.2 = true ∧ byteChars t.1 ∧ (name t.1).head? = some 64) ∧
+    checkC none cycTs = .err 1303 0 0 (some (name "@T")) ∧ codeOfA (checkA none cycTs) = some 1303 := by decide +kernel
+/-- a named type that is an alias of a type shortcut: `@m = @s`, used by `"y" // {type: "@m"}` (accepted: every JSON
+type is allowed, the alternative `@s` admits the token) -/
+def aliasTs : Types := [("@m", .ref ["@s"] false .mixed none false), ("@s", litS "\"x\"")]
+example : (∀ t ∈ aliasTs, xr aliasTs t.2 = true) ∧ xr aliasTs (.ref ["@m"] false .str (some (sb "\"y\"")) false) = true ∧
+    checkC (some (.ref ["@m"] false .str (some (sb "\"y\"")) false)) aliasTs = .ok ∧
+    (codeOfA (checkA (some (.ref ["@m"] false .str (some (sb "\"y\"")) false)) aliasTs) = none ∧ isUnsupported (checkA (some (.ref ["@m"] false .str (some (sb "\"y\"")) false)) aliasTs) = false) := by decide +kernel
+/-- OR-SHORTCUTS. `@o = @s | @nope` (a named type that IS an or-shortcut: its unnamed type `#@o` is checked before every
+named type — 1302 in (C), `orShortsOK` in (A)); `@t = { "k": @s | @b }` (an or-shortcut inside a named type: accepted);
+`[ @s | @b ]` at the root -/
+def orShort (names : List String) : CN := .ref names false .mixed none true
+def osBad : Types := [("@o", orShort ["@s", "@nope"]), ("@s", litS "\"x\"")]
+def osGood : Types := [("@t", .obj [("k", false, true, false, orShort ["@s", "@b"])] .absent false false),
+  ("@s", litS "\"x\""), ("@b", litI "4" [.min (sb "3") false])]
+example : (∀ t ∈ osBad, xr osBad t.2 = true ∧ byteChars t.1 ∧ (name t.1).head? = some 64) ∧ (osBad.map (·.1)).Nodup ∧
+    (∀ t ∈ osGood, xr osGood t.2 = true ∧ byteChars t.1 ∧ (name t.1).head? = some 64) ∧ (osGood.map (·.1)).Nodup ∧
+    xr osGood (.arr [orShort ["@s", "@b"]] false false) = true := by decide +kernel
+example : checkC none osBad = .err 1302 0 0 (some (name "#@o")) ∧ codeOfA (checkA none osBad) = some 1302 ∧
+    (dumpOf none osGood).types.length = 4 ∧
+    checkC (some (.arr [orShort ["@s", "@b"]] false false)) osGood = .ok ∧
+    codeOfA (checkA (some (.arr [orShort ["@s", "@b"]] false false)) osGood) = none ∧
+    isUnsupported (checkA (some (.arr [orShort ["@s", "@b"]] false false)) osGood) = false := by decide +kernel
+example : resOf (checkC none osBad) = some (checkA none osBad) :=
+  C04_models_agree_compiled _ _ (fun r h => by cases h) (by decide +kernel) (by decide +kernel)
+/-- a key shortcut whose type is a typed literal: `{ @k: 1 }` with `@k = "ab" // {type: "@s"}` (accepted), and with
+`@k = 5 // {type: "@n"}` (not a string: 1304 on both sides) -/
+def keyTs (k : CN) : Types := [("@k", k), ("@s", litS "\"x\""), ("@n", litI "4" [])]
+def keyRoot : CN := .obj [("k", true, true, false, litI "1" [])] .absent false false
+example : xr (keyTs (.ref ["@s"] false .str (some (sb "\"ab\"")) false)) keyRoot = true ∧
+    xr (keyTs (refI ["@n"] "5")) keyRoot = true ∧
+    checkC (some keyRoot) (keyTs (.ref ["@s"] false .str (some (sb "\"ab\"")) false)) = .ok ∧
+    codeOfA (checkA (some keyRoot) (keyTs (.ref ["@s"] false .str (some (sb "\"ab\"")) false))) = none ∧
+    checkC (some keyRoot) (keyTs (refI ["@n"] "5")) = .err 1304 0 0 none ∧
+    codeOfA (checkA (some keyRoot) (keyTs (refI ["@n"] "5"))) = some 1304 := by decide +kernel
+/-- non-vacuity of the node-level statements: table, environment and fuel as in `chainTs` -/
+example : tokOK .int (sb "1") = true ∧ (∀ n cn, lookupT chainTs n = some cn → headOK cn = true) ∧
+    2 + budget [] chainTs ≤ checkFuel none chainTs := by
+  refine ⟨by decide +kernel, ?_, by decide +kernel⟩
+  exact lookup_class chainTs (fun cn => headOK cn = true) (by decide +kernel)
+end BridgeEx3
 
 end Props.C04
